@@ -135,7 +135,8 @@ bool exec_basic(ExecCtx &c) {
       if (!src) return true;
       int dst = op.a % NG;
       std::optional<Grid> tmp;
-      libcall(out, [&] { tmp.emplace(*src); });
+      const int cs = value_cat(c, src, 0, false);
+      libcall(out, [&] { as_lv(cs, *src, [&](auto &&ss) { tmp.emplace(SIM_FWD(ss)); }); });
       if (tmp) {
         sim::Exempt e;
         out.obs = hmix(out.obs, hash_grid(*tmp));
@@ -306,7 +307,8 @@ bool exec_basic(ExecCtx &c) {
       if (!src) return true;
       int dst = op.a % NS;
       std::optional<Support> tmp;
-      libcall(out, [&] { tmp.emplace(*src); });
+      const int cs = value_cat(c, src, 0, false);
+      libcall(out, [&] { as_lv(cs, *src, [&](auto &&ss) { tmp.emplace(SIM_FWD(ss)); }); });
       if (tmp) {
         sim::Exempt e;
         out.obs = hmix(out.obs, hash_support(*tmp));
@@ -324,7 +326,8 @@ bool exec_basic(ExecCtx &c) {
       if (!dst || !src) return true;
       out.target = SLOT_S0 + slot;
       if (dst == src) probe(PR_SELF_ASSIGN);
-      libcall(out, [&] { *dst = *src; });
+      const int cs = dst == src ? (int)CAT_CONST : value_cat(c, src, 0, false);
+      libcall(out, [&] { as_lv(cs, *src, [&](auto &&ss) { *dst = SIM_FWD(ss); }); });
       return true;
     }
     case OP_S_MOVE:
@@ -400,9 +403,14 @@ bool exec_basic(ExecCtx &c) {
       if (!a || !b) return true;
       int dst = op.a % NS;
       std::optional<Support> tmp;
+      const int ca = value_cat(c, a, 0, false), cb = value_cat(c, b, 1, false);
       libcall(out, [&] {
-        if (op.kind == OP_S_UNION) tmp.emplace(a->calcUnion(*b));
-        else tmp.emplace(a->calcIntersection(*b));
+        as_lv(ca, *a, [&](auto &&aa) {
+          as_lv(cb, *b, [&](auto &&bb) {
+            if (op.kind == OP_S_UNION) tmp.emplace(aa.calcUnion(SIM_FWD(bb)));
+            else tmp.emplace(aa.calcIntersection(SIM_FWD(bb)));
+          });
+        });
       });
       if (tmp) {
         sim::Exempt e;
